@@ -216,13 +216,26 @@ Fixpoint count_commas (fuel : nat) (s : list N) (p count : N) : res N :=
 
 Inductive loop_end := LDone (ul : list (option N)) | LFail | LAssert.
 
-Fixpoint hwloc_sscanf_loop (fuel : nat) (s : list N) (cur count accum : N) (ul : list (option N))
+(* ulongs[i] |= v *)
+Definition or_store (ul : list (option N)) (i : N) (v : N) : res (list (option N)) :=
+  match nth_error ul (N.to_nat i) with
+  | Some o => store_opt ul i (N.lor (match o with Some w => w | None => 0 end) v)
+  | None => Oob
+  end.
+
+(* [zeroed]: after patches/fix-C04-sscanf-unwritten-words.diff the words are zeroed
+   first and, when the string ends right after a comma, what was accumulated
+   for the current ulong is stored ("if (accum && count > 0) ulongs[(count-1)/2] |= accum") *)
+Fixpoint hwloc_sscanf_loop (zeroed : bool) (fuel : nat) (s : list N) (cur count accum : N) (ul : list (option N))
   : res loop_end :=
   match fuel with
   | O => Oob
   | S f =>
     let* c := rdr s cur in
-    if c =? 0 then Ok (LDone ul)
+    if c =? 0 then
+      (if zeroed && negb (accum =? 0) && (0 <? count)
+       then let* ul' := or_store ul (N.pred count / 2) accum in Ok (LDone ul')
+       else Ok (LDone ul))
     else
       let* vn := strtoul s cur 16 in
       let '(val, next) := vn in
@@ -237,14 +250,14 @@ Fixpoint hwloc_sscanf_loop (fuel : nat) (s : list N) (cur count accum : N) (ul :
         let* nc := rdr s next in
         if negb (nc =? COMMA) then
           (if negb (nc =? 0) || (0 <? count) then Ok LFail else Ok (LDone ul))
-        else hwloc_sscanf_loop f s (N.succ next) count accum ul
+        else hwloc_sscanf_loop zeroed f s (N.succ next) count accum ul
   end.
 
 (* [fixed] selects where the comma count starts: false = the code as it is
    (strchr(current+1, ...): index 1), true = after patches/fix-C04-sscanf-empty.diff
    (index 0).  [dirty]: previous contents of the ulongs the function does not
    store to (hwloc_bitmap_reset_by_ulongs leaves them as they were). *)
-Definition parse_hwloc_gen (fixed : bool) (dirty : N) (s : list N) : res pres :=
+Definition parse_hwloc_gen (fixed zeroed : bool) (dirty : N) (s : list N) : res pres :=
   let* count := count_commas (S (length s)) s (if fixed then 0 else 1) 1 in
   let* pfx := has_prefix "0xf...f" s 0 in
   let* hd := (if pfx then
@@ -257,8 +270,8 @@ Definition parse_hwloc_gen (fixed : bool) (dirty : N) (s : list N) : res pres :=
   | Some (cur, infinite, count) =>
     let ulongcount := (count + 1) / 2 in
     let accum := if infinite && negb (count mod 2 =? 0) then HI32MASK else 0 in
-    let* e := hwloc_sscanf_loop (S (length s)) s cur count accum
-                (repeat None (N.to_nat ulongcount)) in
+    let* e := hwloc_sscanf_loop zeroed (S (length s)) s cur count accum
+                (repeat (if zeroed then Some 0 else None) (N.to_nat ulongcount)) in
     match e with
     | LDone ul => Ok (PSet (BM (map (fun o => match o with Some w => w | None => dirty end) ul) infinite))
     | LFail => Ok PFail
@@ -266,9 +279,11 @@ Definition parse_hwloc_gen (fixed : bool) (dirty : N) (s : list N) : res pres :=
     end
   end.
 
-(* which variant /repo currently is; switch to true when the fix is committed *)
-Definition hwloc_sscanf_fixed : bool := false.
-Definition parse_hwloc := parse_hwloc_gen hwloc_sscanf_fixed.
+(* which variant /repo currently is.  fixed: /repo eea9042 (comma count from index 0).
+   zeroed: switch to true when patches/fix-C04-sscanf-unwritten-words.diff is committed *)
+Definition hwloc_sscanf_fixed : bool := true.
+Definition hwloc_sscanf_zeroed : bool := false.
+Definition parse_hwloc := parse_hwloc_gen hwloc_sscanf_fixed hwloc_sscanf_zeroed.
 
 (* the words of [ul] that were never stored to *)
 Definition unwritten (ul : list (option N)) : bool :=
